@@ -374,7 +374,13 @@ func (s *Stmt) SQL() string {
 			}
 			return b.SQL()
 		}
-		out := branch(s.L) + kw + branch(s.R)
+		right := branch(s.R)
+		if s.R.Union && s.R.Limit == nil {
+			// a union nested on the RIGHT: without parentheses the parser reads the chain left-deep, which is another query
+			// whenever the two operators differ (A UNION (B UNION ALL C) vs (A UNION B) UNION ALL C)
+			right = "(" + right + ")"
+		}
+		out := branch(s.L) + kw + right
 		if len(s.With) > 0 {
 			w := make([]string, len(s.With))
 			for i, c := range s.With {
